@@ -143,9 +143,9 @@ func carriesValue(op string) bool {
 }
 
 func runLin(r *kit.Run, prop string, deque bool) {
-	nh := int64(r.Scale(3000, 600000))
+	nh := int64(r.Scale(3000, 1500000))
 	if deque {
-		nh = int64(r.Scale(3000, 100000)) // Deque histories are ~20x slower (spinning waiters, DESIGN 3.3)
+		nh = int64(r.Scale(3000, 250000)) // Deque histories are ~20x slower (spinning waiters, DESIGN 3.3)
 	}
 	if r.Build != "plain" {
 		nh /= 10
@@ -156,7 +156,7 @@ func runLin(r *kit.Run, prop string, deque bool) {
 		}
 		linHistory(r, prop, deque, i, r.Rng("hist", i))
 	}
-	ns := int64(r.Scale(400, 60000))
+	ns := int64(r.Scale(400, 150000))
 	for i := int64(0); i < ns && !r.Stopped(); i++ {
 		if !r.Mine(i) {
 			continue
